@@ -15,6 +15,7 @@ EXPLANATION = (
     "(skip>1); the skip loops are unbounded while-loops stepping exactly one millisecond outward then re-flooring / "
     "re-ceiling; `skipped` tests the 1 ms window [date, date+1ms) with the chosen skip.  C14.CEIL: interval.ceil(t) == "
     "step(floor(t - 1ms), 1).  Decides structure; '< 2 tick steps' and roundness of values are numeric and not decided."
+    '  Also part of this check: the unit floors really round down and the offsets move by whole units (C17.UNITTABLE, C17.MONTHSTEP, C17.ROUND).'
 )
 
 NICE = "scale.d3_scale_nice"
